@@ -21,6 +21,11 @@ func init() {
 					Type: "symbol|lambda",
 					Text: "The function to call.",
 				},
+				{
+					Name: "arg",
+					Type: "object",
+					Text: "The first argument or, when it is the only one, the list of arguments to the _function_.",
+				},
 				{Name: "&rest"},
 				{
 					Name: "args",
